@@ -5,11 +5,13 @@
      ||x - TT(x)||^2 = sum over all steps of the squares of the discarded singular values
    for genuine SVD answers and prefix truncation, and the SELECTION RULE: with a relative threshold an index is kept exactly
    when s_j / s_0 > threshold, so every discarded singular value fails that test -- with the identity,
-   error^2 = sum of discarded s_j^2 <= (#discarded) (threshold s_0)^2 is elementary.  NOT formalised (the scalar structure has
-   no order; tested numerically by the side check): that last arithmetic step, s_0 <= ||x||, and the quasi-optimality bound. *)
+   error^2 = sum of discarded s_j^2 <= (#discarded) (threshold s_0)^2, and the THRESHOLD BOUND
+     Td * ||x - TT(x)||^2 <= (#discarded) * Tn * ||x||^2     (threshold^2 = Tn / Td)
+   for every order relation with the usual laws (section 5; instantiated over Z).  NOT formalised (tested numerically by the
+   side check): the quasi-optimality bound for max_rank w.r.t. the ORIGINAL unfoldings. *)
 From Coq Require Import ZArith List Lia Arith.
 Import ListNotations.
-Require Import Ring Sums Matrix Core Chain Sweep OfFull SweepProof TensordotProof TruncProof ErrorProof SelectProof.
+Require Import Ring Sums Matrix Core Chain Sweep OfFull SweepProof TensordotProof TruncProof ErrorProof SelectProof BoundProof.
 Open Scope cr_scope.
 
 (* 1a. construction from a full array: every inner rank is at most max_rank *)
@@ -52,8 +54,7 @@ Print Assumptions C04_maxrank_prefix.
    quasi_optimal_full : err2 <= sum_k (best rank-r_k error of the k-th unfolding of the ORIGINAL tensor)^2
        -- from 3, each step's discarded energy is the best rank-r error of the CURRENT residual
           (Eckart-Young); relating it to the original unfolding needs singular-value interlacing.
-   threshold_bound_full : err2 <= threshold^2 * ||x||^2 * #discarded
-       -- from 3 with s_j <= threshold * s_0 and s_0^2 <= ||residual||^2 <= ||x||^2. *)
+   (threshold_bound_full : err2 <= threshold^2 * ||x||^2 * #discarded  is now C04_threshold_bound below.) *)
 
 (* ---- non-vacuity: a genuine SVD over Z, truncated to rank 1, meets err_hyp; the identity gives 1 ---- *)
 Definition exX : list nat -> list nat -> Zring := fun xs _ =>
@@ -89,3 +90,55 @@ Theorem C04_kept_indices (R : cring) (thr : option (R -> R -> bool)) (maxr : opt
   NoDup (select thr maxr a) /\ (forall j, In j (select thr maxr a) -> (j < rk a)%nat).
 Proof. exact (select_sorted thr maxr a). Qed.
 Print Assumptions C04_kept_indices.
+
+(* 5. the threshold bound, for any order relation on the scalars with the laws listed (reflexive, transitive, compatible with
+   +, |z|^2 >= 0, multiplication by Tn monotone) and any boolean test gt whose failure on a non-negative singular value means
+   Td s_j^2 <= Tn s_0^2  (for the code's test  s_j / s_0 > threshold :  Tn / Td = threshold^2) *)
+Theorem C04_threshold_bound (R : cring) (le : R -> R -> Prop) (Tn Td : R) (gt : R -> R -> bool) :
+  (forall a : R, le a a) -> (forall a b c : R, le a b -> le b c -> le a c) ->
+  (forall a b c d : R, le a b -> le c d -> le (a + c) (b + d)) ->
+  (forall z : R, le 0 (z * cconj R z)) ->
+  (forall a b : R, le a b -> le (Tn * a) (Tn * b)) ->
+  (forall a b : R, le 0 a -> gt a b = false -> le (Td * (a * a)) (Tn * (b * b))) ->
+  forall ms ns answers r (res : nat -> list nat -> list nat -> R),
+  length ns = length ms -> ms <> [] ->
+  err_hyp (Some gt) None answers r res ms ns -> sv_nonneg le answers ->
+  le (Td * err2 r ms ns res (fst (of_full_aux (Some gt) None answers r res ms ns)))
+     (nmul (ndisc gt answers ms ns) (Tn * norm2 r ms ns res)).
+Proof.
+  intros H1 H2 H3 H4 H5 H6 ms ns answers r res.
+  exact (threshold_bound le H1 H2 H3 H4 Tn Td H5 gt H6 ms ns answers r res).
+Qed.
+Print Assumptions C04_threshold_bound.
+
+(* instance: integers, threshold 1/2 (keep s_j iff s_0 < 2 s_j):  4 * error^2 <= #discarded * ||x||^2 *)
+Definition gtZ : Zring -> Zring -> bool := fun a b => (b <? 2 * a)%Z.
+Theorem C04_threshold_bound_Z ms ns (answers : list (svd_ans Zring)) r (res : nat -> list nat -> list nat -> Zring) :
+  length ns = length ms -> ms <> [] ->
+  err_hyp (Some gtZ) None answers r res ms ns -> @sv_nonneg Zring Z.le answers ->
+  (4 * @err2 Zring r ms ns res (fst (of_full_aux (Some gtZ) None answers r res ms ns)) <=
+   @nmul Zring (@ndisc Zring gtZ answers ms ns) (1 * @norm2 Zring r ms ns res))%Z.
+Proof.
+  apply (C04_threshold_bound Zring Z.le 1%Z 4%Z gtZ).
+  - intros a. apply Z.le_refl.
+  - intros a b c. apply Z.le_trans.
+  - intros a b c d H1 H2. change (a + c <= b + d)%Z. lia.
+  - intros z. change (0 <= z * z)%Z. nia.
+  - intros a b H. change (1 * a <= 1 * b)%Z. lia.
+  - intros a b H0 H. change (0 <= a)%Z in H0. change (4 * (a * a) <= 1 * (b * b))%Z.
+    unfold gtZ in H. apply Z.ltb_ge in H. nia.
+Qed.
+Print Assumptions C04_threshold_bound_Z.
+
+(* non-vacuity: the example above with the threshold test instead of the rank cap: s = (2, 1), s_1 fails the test *)
+Example ex_err_hyp_thr : @err_hyp Zring (Some gtZ) None [exAns4] 1 (fun _ xs ys => exX xs ys) [2; 2]%nat [1; 1]%nat
+                         /\ @sv_nonneg Zring Z.le [exAns4] /\ @ndisc Zring gtZ [exAns4] [2; 2]%nat [1; 1]%nat = 1%nat.
+Proof.
+  split; [|split; [|reflexivity]].
+  - split; [exists 1%nat; split; [simpl; lia|reflexivity]|]. split; [|exact I].
+    repeat split.
+    + intros r b Hr Hb. destruct r as [|[|r]]; destruct b as [|[|b]]; try (simpl in *; lia); vm_compute; reflexivity.
+    + intros p q Hp Hq. destruct p as [|[|p]]; destruct q as [|[|q]]; try (simpl in *; lia); vm_compute; reflexivity.
+    + intros p q Hp Hq. destruct p as [|[|p]]; destruct q as [|[|q]]; try (simpl in *; lia); vm_compute; reflexivity.
+  - constructor; [|constructor]. intros p Hp. destruct p as [|[|p]]; try (simpl in Hp; lia); vm_compute; discriminate.
+Qed.
